@@ -252,6 +252,55 @@ theorem fl_foldRange_error (M : FlModel) (a b : Nat → FlNum M) (s e : Nat) (hn
   rw [← habs]
   exact le_trans h (mul_le_mul_of_nonneg_right hg hnn)
 
+/-- without the first-addition slack: if the arithmetic adds onto 0 exactly (`fl(0 + b) = b`, true for IEEE), the row loop
+    over `n = e - s ≥ 1` terms satisfies the textbook bound with **`γ_n`** -/
+theorem fl_foldRange_error_exact0 (M : FlModel) (h0 : ∀ b, M.add 0 b = b) (a b : Nat → FlNum M) (s e : Nat) (hse : s < e)
+    (hn : ((e - s : Nat) : Rat) * M.u < 1) :
+    |(foldRange s e (fun sum k => sum + a k * b k) 0).val - ∑ k ∈ Finset.Ico s e, (a k).val * (b k).val|
+      ≤ gammaFl M.u (e - s) * ∑ k ∈ Finset.Ico s e, |(a k).val| * |(b k).val| := by
+  have hfold : ∀ (L : List Nat) (acc : FlNum M),
+      (L.foldl (fun sum k => sum + a k * b k) acc).val
+        = L.foldl (fun acc k => M.add acc (M.mul (a k).val (b k).val)) acc.val := by
+    intro L
+    induction L with
+    | nil => intro acc; rfl
+    | cons k L ih => intro acc; rw [List.foldl_cons, List.foldl_cons, ih]; rfl
+  obtain ⟨n, hn'⟩ : ∃ n, e - s = n + 1 := ⟨e - s - 1, by omega⟩
+  have hsum : ∀ (f : Nat → Rat), ((List.range' s (e - s)).map f).sum = ∑ k ∈ Finset.Ico s e, f k := by
+    intro f
+    have := foldl_range'_add f (e - s) s 0
+    rw [zero_add, ← Finset.sum_Ico_eq_sum_range] at this
+    rw [← this]
+    generalize List.range' s (e - s) = L
+    have : ∀ (L : List Nat) (acc : Rat), L.foldl (fun acc k => acc + f k) acc = acc + (L.map f).sum := by
+      intro L
+      induction L with
+      | nil => intro acc; simp
+      | cons k L ih => intro acc; rw [List.foldl_cons, ih, List.map_cons, List.sum_cons]; ring
+    rw [this L 0, zero_add]
+  have h := fl_fold_gen M (fun k => (a k).val * (b k).val) (fun k => M.mul (a k).val (b k).val) M.u M.u_nonneg
+    (fun k => mul_term_error M _ _) (List.range' (s + 1) n) (M.mul (a s).val (b s).val) ((a s).val * (b s).val)
+    |(a s).val * (b s).val| M.u (le_refl _) (abs_nonneg _) (le_refl _) (mul_term_error M _ _)
+  unfold foldRange
+  rw [hfold]
+  have hsplit : List.range' s (e - s) = s :: List.range' (s + 1) n := by rw [hn', List.range'_succ]
+  have hlist : ∀ (f : Nat → Rat), f s + ((List.range' (s + 1) n).map f).sum = ∑ k ∈ Finset.Ico s e, f k := by
+    intro f
+    rw [← hsum f, hsplit, List.map_cons, List.sum_cons]
+  rw [hsplit, List.foldl_cons]
+  have e0 : M.add (0 : FlNum M).val (M.mul (a s).val (b s).val) = M.mul (a s).val (b s).val := h0 _
+  rw [e0]
+  simp only [List.length_range'] at h
+  rw [hlist (fun k => (a k).val * (b k).val), hlist (fun k => |(a k).val * (b k).val|)] at h
+  have e1 : (1 + M.u) ^ n * (M.u + 1) - 1 = (1 + M.u) ^ (e - s) - 1 := by rw [hn']; ring
+  rw [e1] at h
+  have hg := pow_sub_one_le_gamma M.u M.u_nonneg (e - s) hn
+  have hnn : 0 ≤ ∑ k ∈ Finset.Ico s e, |(a k).val * (b k).val| := Finset.sum_nonneg (fun _ _ => abs_nonneg _)
+  have habs : ∑ k ∈ Finset.Ico s e, |(a k).val * (b k).val| = ∑ k ∈ Finset.Ico s e, |(a k).val| * |(b k).val| :=
+    Finset.sum_congr rfl (fun k _ => abs_mul _ _)
+  rw [← habs]
+  exact le_trans h (mul_le_mul_of_nonneg_right hg hnn)
+
 theorem mul1_term_error (M : FlModel) (v x : Rat) :
     |M.mul (M.mul 1 v) x - v * x| ≤ (2 * M.u + M.u * M.u) * |v * x| := by
   obtain ⟨d1, hd1, e1⟩ := M.mul_spec 1 v
@@ -323,6 +372,46 @@ theorem fl_bcsr_blockRow_error (M : FlModel) (A : Bcsr (FlNum M)) (x : Array (Fl
     obtain ⟨p, _, rfl⟩ := List.mem_map.mp hv
     exact abs_nonneg _
   exact le_trans h (mul_le_mul_of_nonneg_right hg hnn)
+
+/-- the final step of every non-transposed kernel, `r_i = fl(fl(beta·r_i) + fl(alpha·ŝ))`, where the computed row sum `ŝ`
+    carries the error `E` of the row loop: `|r̂_i − (beta·r_i + alpha·s)| ≤ (2u+u²)(|beta r_i| + |alpha s|) + (1+u)²|alpha|·E` -/
+theorem fl_final_step (M : FlModel) (beta ri alpha sh s E : Rat) (hE : |sh - s| ≤ E) :
+    |M.add (M.mul beta ri) (M.mul alpha sh) - (beta * ri + alpha * s)|
+      ≤ (2 * M.u + M.u * M.u) * (|beta * ri| + |alpha * s|) + (1 + M.u) * (1 + M.u) * (|alpha| * E) := by
+  obtain ⟨d1, hd1, e1⟩ := M.mul_spec beta ri
+  obtain ⟨d2, hd2, e2⟩ := M.mul_spec alpha sh
+  obtain ⟨d3, hd3, e3⟩ := M.add_spec (M.mul beta ri) (M.mul alpha sh)
+  have hu := M.u_nonneg
+  rw [e3, e1, e2]
+  have hid : (beta * ri * (1 + d1) + alpha * sh * (1 + d2)) * (1 + d3) - (beta * ri + alpha * s)
+      = beta * ri * (d1 + d3 + d1 * d3) + alpha * s * (d2 + d3 + d2 * d3) + alpha * (sh - s) * ((1 + d2) * (1 + d3)) := by
+    ring
+  rw [hid]
+  have th : ∀ a b : Rat, |a| ≤ M.u → |b| ≤ M.u → |a + b + a * b| ≤ 2 * M.u + M.u * M.u := by
+    intro a b ha hb
+    have hab : |a * b| ≤ M.u * M.u := by rw [abs_mul]; exact mul_le_mul ha hb (abs_nonneg _) hu
+    calc |a + b + a * b| ≤ |a + b| + |a * b| := abs_add_le _ _
+      _ ≤ |a| + |b| + |a * b| := by linarith [abs_add_le a b]
+      _ ≤ 2 * M.u + M.u * M.u := by linarith
+  have h1 : |beta * ri * (d1 + d3 + d1 * d3)| ≤ |beta * ri| * (2 * M.u + M.u * M.u) := by
+    rw [abs_mul]; exact mul_le_mul_of_nonneg_left (th d1 d3 hd1 hd3) (abs_nonneg _)
+  have h2 : |alpha * s * (d2 + d3 + d2 * d3)| ≤ |alpha * s| * (2 * M.u + M.u * M.u) := by
+    rw [abs_mul]; exact mul_le_mul_of_nonneg_left (th d2 d3 hd2 hd3) (abs_nonneg _)
+  have h12 : ∀ d : Rat, |d| ≤ M.u → |1 + d| ≤ 1 + M.u := fun d hd =>
+    le_trans (abs_add_le _ _) (by rw [abs_one]; linarith)
+  have h3 : |alpha * (sh - s) * ((1 + d2) * (1 + d3))| ≤ |alpha| * E * ((1 + M.u) * (1 + M.u)) := by
+    rw [abs_mul, abs_mul, abs_mul]
+    have hE0 : 0 ≤ E := le_trans (abs_nonneg _) hE
+    apply mul_le_mul
+    · exact mul_le_mul_of_nonneg_left hE (abs_nonneg _)
+    · exact mul_le_mul (h12 d2 hd2) (h12 d3 hd3) (abs_nonneg _) (by linarith)
+    · exact mul_nonneg (abs_nonneg _) (abs_nonneg _)
+    · exact mul_nonneg (abs_nonneg _) hE0
+  calc |beta * ri * (d1 + d3 + d1 * d3) + alpha * s * (d2 + d3 + d2 * d3) + alpha * (sh - s) * ((1 + d2) * (1 + d3))|
+      ≤ |beta * ri * (d1 + d3 + d1 * d3)| + |alpha * s * (d2 + d3 + d2 * d3)| + |alpha * (sh - s) * ((1 + d2) * (1 + d3))| := by
+        linarith [abs_add_le (beta * ri * (d1 + d3 + d1 * d3) + alpha * s * (d2 + d3 + d2 * d3)) (alpha * (sh - s) * ((1 + d2) * (1 + d3))),
+          abs_add_le (beta * ri * (d1 + d3 + d1 * d3)) (alpha * s * (d2 + d3 + d2 * d3))]
+    _ ≤ _ := by nlinarith [h1, h2, h3]
 
 /-- dropping `alpha·(A x)_i` for `|alpha| < eps` stays inside `eps·(|A||x|)_i` -/
 theorem tiny_envelope (al eps yi : Rat) (hal : |al| < eps) (e xv : Nat → Rat) (n : Nat) :
